@@ -858,6 +858,33 @@ func runStreamC06(c *Ctx, f *streamFmt) {
 		fileCase([]byte(s), 0, "file/tiny")
 		fileCase([]byte(s), 1, "file/tiny")
 	}
+	// files that start with bytes other tools sniff (byte-order marks, gzip magic in a
+	// plain file, a shebang): File must hand them to the reader untouched
+	for _, pre := range []string{"\xef\xbb\xbf", "\xff\xfe", "\xfe\xff", "\x1f\x8b", "#!", "\x00"} {
+		w, _, _ := f.gen(c, 600, false)
+		d := append([]byte(pre), w...)
+		fileCase(d, 0, "file/magic-prefix")
+		if pre != "\x1f\x8b" {
+			fileCase(d, 1, "file/magic-prefix")
+		}
+		f.runSched(c, d, nil, false, "whole", "input/magic-prefix")
+	}
+	if d := streamLongLine(c, f.name, 40); d != nil && f.name != "newick" {
+		// the first field of the first record starts with a BOM
+		i := bytes.IndexAny(d, "ar@c")
+		if f.name == "fasta" || f.name == "fastq" {
+			i = 1
+		} else if f.name == "bed" {
+			i = 0
+		} else {
+			i = bytes.Index(d, []byte("\na\t")) + 1
+		}
+		if i >= 0 && i <= len(d) {
+			d2 := append(append(append([]byte{}, d[:i]...), "\xef\xbb\xbf"...), d[i:]...)
+			fileCase(d2, 0, "file/bom-in-first-field")
+			fileCase(d2, 1, "file/bom-in-first-field")
+		}
+	}
 	for i := 0; i < c.Pick(60, 600); i++ {
 		w, _, _ := f.gen(c, c.Pick(600, 4000), false)
 		strat := "file/well-formed"
